@@ -132,6 +132,44 @@ def run_validator_file(text):
     return res
 
 
+def file_revalidation_problems(text_a, text_b):
+    """validation through a path, as an application does it over time: the same file validated twice in a row gives the
+    same verdict and the same messages; a file whose content is replaced while its modification time is kept (cp -p,
+    rsync -t) is validated as what it contains now"""
+    from pfdl_scheduler.utils.parsing_utils import parse_program
+
+    def val(path):
+        buf = io.StringIO()
+        try:
+            with contextlib.redirect_stdout(buf):
+                r = parse_program(path)
+            return bool(r[0]), re.sub(r"File .*?, in line", "File, in line", buf.getvalue())
+        except Exception as ex:  # noqa: BLE001
+            return "raised " + type(ex).__name__, buf.getvalue()
+
+    probs = []
+    path = os.path.join(os.getcwd(), "revalidated_%d.pfdl" % os.getpid())
+    with open(path, "w", newline="") as f:
+        f.write(text_a)
+    st = os.stat(path)
+    a1 = val(path)
+    a2 = val(path)
+    if a1 != a2:
+        probs.append("the same unchanged file validated twice: first %r, then %r" % ((a1[0], a1[1][:120]), (a2[0], a2[1][:120])))
+    if (a2[0] is True) != (a2[1] == "") and not str(a2[0]).startswith("raised"):
+        probs.append("second validation of the same file: verdict %r but output %r" % (a2[0], a2[1][:120]))
+    with open(path, "w", newline="") as f:
+        f.write(text_b)
+    os.utime(path, ns=(st.st_atime_ns, st.st_mtime_ns))
+    b1 = val(path)
+    with open(path + ".fresh", "w", newline="") as f:
+        f.write(text_b)
+    b0 = val(path + ".fresh")
+    if b1 != b0:
+        probs.append("a file whose content was replaced (modification time kept) is validated as %r, the same content in a fresh file as %r" % ((b1[0], b1[1][:120]), (b0[0], b0[1][:120])))
+    return probs
+
+
 NO_VERDICT_S = 25
 _IN_WORKER = [False]
 _NO_VERDICT_CONFIRMED = [False]
@@ -719,6 +757,7 @@ def job_text(args):
     try:
         prog = gen_wf(rng, size)
         base = vgen.print_program(copy.deepcopy(prog), random_layout(rng) if rng.random() < 0.5 else None)
+        texts_seen = []
         for _ in range(k):
             kind, text = mutate_text(rng, base)
             if rng.random() < 0.3:
@@ -728,7 +767,14 @@ def job_text(args):
             inert = None
             if r["exc"] is None and r["valid"] is False:
                 inert = check_inert(text)
-            out.append({"kind": kind, "text": text, "res": r, "inert": inert})
+            rec = {"kind": kind, "text": text, "res": r, "inert": inert}
+            if texts_seen and rng.random() < 0.25 and "\x00" not in text and r["exc"] is None:
+                try:
+                    rec["file_problems"] = file_revalidation_problems(text, rng.choice(texts_seen + [base]))
+                except (OSError, UnicodeError, ValueError):
+                    pass
+            texts_seen.append(text)
+            out.append(rec)
         signal.alarm(0)
         return {"seed": seed, "texts": out}
     except CaseTimeout:
@@ -1312,6 +1358,8 @@ def _run(ctx, pool, res):
                 add_violation(res, seen, "C16", "verdict_vs_output", "verdict %r but output %r" % (rv["valid"], rv["out"][:200]), t["text"])
             if t.get("inert"):
                 add_violation(res, seen, "C16", "invalid_not_inert", "invalid program but %s" % t["inert"], t["text"])
+            if t.get("file_problems"):
+                add_violation(res, seen, "C16", "file_revalidation", t["file_problems"][0], t["text"])
     # accepted programs run ------------------------------------------------------------------------------
     run_hist = {}
     for r in run_res:
